@@ -49,7 +49,7 @@ CONFIG = {
     "assumptions": ["rdf:JSON literals carry valid JSON in canonical form (the serializer re-parses and re-prints them)",
                     "IRIs are absolute (relative IRIs are exercised differentially only: `&id[..2]` panics on 1-byte ids)",
                     "HashMap iteration order is irrelevant (object keys and set-valued arrays are sorted before comparison)"],
-    "exec_timeout": 1800,
+    "exec_timeout": 600,
     "search_rounds": 3,
     "search_time": 240,
 }
